@@ -49,6 +49,7 @@ type Contract struct {
 	Loops    map[int]*LoopSpec
 	Inline   bool
 	NoPanicCheck bool
+	Safety   bool // generate K1 obligations (index, nil, assert, slice, panic, div0)
 	Pure     bool
 	File     string
 	Format   string // for fmt.Sprintf-like externs: contract applies when arg0 == this literal
@@ -74,6 +75,19 @@ type OnCall struct {
 		Name string
 		Expr Clause
 	}
+}
+
+// FrameSpec is a property-level frame contract checked by the frame engine.
+type FrameSpec struct {
+	Key        string
+	Props      []string
+	Allows     []string // field patterns that may be written on pre-existing objects
+	ResultFresh []string // link fields through which the result must reach only fresh objects
+	NoGlobals  bool
+	NoUnsync   bool     // every write to a pre-existing object must be synchronised (race frame)
+	Closures   bool     // apply to the closures defined in the function instead of the function itself
+	NoUnknown  bool
+	File       string
 }
 
 type SpecFunc struct {
@@ -105,11 +119,13 @@ type ContractSet struct {
 	Consts map[string]*Clause
 	Files  []string
 	IfaceContracts map[string]*Contract // "gedcom.Node.AddNode"
+	Frames []*FrameSpec
+	FieldGroups map[string][]string
 }
 
 func NewContractSet() *ContractSet {
 	return &ContractSet{Funcs: map[string]*Contract{}, Formats: map[string][]*Contract{}, Specs: map[string]*SpecFunc{},
-		Consts: map[string]*Clause{}, IfaceContracts: map[string]*Contract{}}
+		Consts: map[string]*Clause{}, IfaceContracts: map[string]*Contract{}, FieldGroups: map[string][]string{}}
 }
 
 var labelRe = regexp.MustCompile(`^([A-Za-z][A-Za-z0-9_.\-]*):\s+(.*)$`)
@@ -194,9 +210,66 @@ func (cs *ContractSet) LoadFile(file string) error {
 		lines = append(lines, dline{t, i + 1})
 	}
 	var cur *Contract
+	var curFrame *FrameSpec
 	for _, l := range lines {
 		where := fmt.Sprintf("%s:%d", file, l.no)
 		word, rest := splitWord(l.text)
+		if word == "frame" {
+			key := rest
+			if !strings.Contains(key, "/") && pkg != "" {
+				key = pkg + "." + key
+			}
+			curFrame = &FrameSpec{Key: key, File: where}
+			cs.Frames = append(cs.Frames, curFrame)
+			cur = nil
+			continue
+		}
+		if word == "fieldgroup" {
+			k := strings.Index(rest, "=")
+			if k < 0 {
+				return fmt.Errorf("%s: fieldgroup needs =", where)
+			}
+			name := strings.TrimSpace(rest[:k])
+			for _, f := range strings.Split(rest[k+1:], ",") {
+				if f = strings.TrimSpace(f); f != "" {
+					cs.FieldGroups[name] = append(cs.FieldGroups[name], f)
+				}
+			}
+			continue
+		}
+		if curFrame != nil && cur == nil {
+			handled := true
+			switch word {
+			case "props":
+				curFrame.Props = append(curFrame.Props, strings.Fields(rest)...)
+			case "allows":
+				for _, f := range strings.Split(rest, ",") {
+					if f = strings.TrimSpace(f); f != "" {
+						curFrame.Allows = append(curFrame.Allows, f)
+					}
+				}
+			case "result-fresh":
+				for _, f := range strings.Split(rest, ",") {
+					if f = strings.TrimSpace(f); f != "" {
+						curFrame.ResultFresh = append(curFrame.ResultFresh, f)
+					}
+				}
+			case "no-globals":
+				curFrame.NoGlobals = true
+			case "no-unsync":
+				curFrame.NoUnsync = true
+			case "closures":
+				curFrame.Closures = true
+			case "no-unknown-calls":
+				curFrame.NoUnknown = true
+			default:
+				handled = false
+			}
+			if handled {
+				continue
+			}
+			curFrame = nil
+		}
 		switch word {
 		case "spec", "ghost":
 			w2, rest2 := splitWord(rest)
@@ -334,6 +407,8 @@ func (cs *ContractSet) LoadFile(file string) error {
 				cur.Trusted = true
 			case "nopaniccheck":
 				cur.NoPanicCheck = true
+			case "safety":
+				cur.Safety = true
 			case "format":
 				s, err := strconv.Unquote(strings.TrimSpace(rest))
 				if err != nil {
